@@ -414,6 +414,7 @@ impl Engine for C06 {
                             env: inc.env.clone(),
                             env_remove: vec![],
                             timeout: Duration::from_secs(30),
+                            stdout_to: None,
                         },
                     );
                     let cr = match cr {
